@@ -435,3 +435,26 @@ pub fn c02prune() -> bool {
     }
     bad
 }
+
+/// C02 (local write paths): a deletion issued before anything matches still leaves its marker, which rejects an older entry
+/// that arrives later (order independence); insert refuses what would be a malformed deletion marker.
+pub fn c02local() -> bool {
+    let doc = Doc::new(90);
+    let mut bad = false;
+    let mut store = Store::memory();
+    let mut r = store.new_replica(doc.ns.clone()).unwrap();
+    let del = block_on(r.delete_prefix(b"docs/", &doc.authors[0]));
+    let older = doc.entry(0, b"docs/a", 500, 1); // older than the deletion
+    let late = block_on(r.insert_remote_entry(older, [1u8; 32], ContentStatus::Complete));
+    let empty_len = block_on(r.insert(b"k", &doc.authors[0], Hash::new(b"x"), 0));
+    let empty_hash = block_on(r.insert(b"k", &doc.authors[0], Hash::EMPTY, 3));
+    let good = block_on(r.insert(b"k", &doc.authors[0], Hash::new(b"x"), 1));
+    drop(r);
+    let held = all_of(&mut store, &doc);
+    let keys: Vec<Vec<u8>> = held.iter().map(|e| e.key().to_vec()).collect();
+    if !matches!(del, Ok(0)) || late.is_ok() || empty_len.is_ok() || empty_hash.is_ok() || good.is_err() || keys != vec![b"docs/".to_vec(), b"k".to_vec()] {
+        eprintln!("c02local: delete on nothing {:?}; older entry afterwards accepted: {}; empty inserts accepted: {} {}; plain insert ok: {}; held keys {:?}", del.is_ok(), late.is_ok(), empty_len.is_ok(), empty_hash.is_ok(), good.is_ok(), keys);
+        bad = true;
+    }
+    bad
+}
